@@ -106,6 +106,9 @@ def gen_history(rng, tag, nops):
             ops.append({"op": "write", "file": f, "content": content})
             state[f] = content
     ops.append({"op": "lint", "target": "."})
+    # the repository-level ignore file edited between two objects of one process
+    for content in (rng.choice(sorted(pool)) + "\n", "pkg/\n*.ts\n", "# nothing ignored any more\n"):
+        ops += [{"op": "write", "file": ".thailintignore", "content": content}, {"op": "renew"}, {"op": "lint", "target": "."}, {"op": "lint", "target": rng.choice(sorted(pool))}]
     return init, ops
 
 
@@ -168,6 +171,11 @@ def history_case(case):
     for op in case["ops"]:
         if op["op"] in ("write", "delete", "touch"):
             apply_fs(root, op)
+            results.append(None)
+            continue
+        if op["op"] == "renew":
+            # a NEW object in the same long-lived process (the repository-level ignore file may have been edited since the first one was made)
+            obj = Linter(project_root=root) if case["api"] == "linter" else Orchestrator(project_root=Path(root))
             results.append(None)
             continue
         try:
